@@ -255,6 +255,42 @@ def main():
                     out["oracle_bad"].append({"oracle": "check_grads", "kind": kind, "mode": mode, "order": order,
                                               "what": "a defective %s rule passed in %d of %d runs" % (mode, passes, trials),
                                               "site": {"oracle": "check_grads-reject"}})
+    # ---- combo_check (the suite's own driver around check_grads): EVERY combination of the listed positional values and
+    #      keyword values is checked - a rule that is wrong for one combination only is rejected, whichever it is ----
+    from autograd.test_util import combo_check
+
+    def planted_combo(bad_arg_index, bad_kw):
+        @primitive
+        def pc(x, y, flag=0):
+            return x * y * (1.0 + flag)
+
+        def wrong_here(x, y, flag):
+            return (bad_arg_index is not None and float(onp.ravel(y)[0]) == ys[bad_arg_index][0]) or (bad_kw is not None and flag == bad_kw)
+        defvjp(pc, lambda ans, x, y, flag=0: lambda g: g * y * (1.0 + flag) * (1.5 if wrong_here(x, y, flag) else 1.0),
+               lambda ans, x, y, flag=0: lambda g: g * x * (1.0 + flag))
+        defjvp(pc, lambda g, ans, x, y, flag=0: g * y * (1.0 + flag) * (1.5 if wrong_here(x, y, flag) else 1.0),
+               lambda g, ans, x, y, flag=0: g * x * (1.0 + flag))
+        return pc
+    xs_ = [onp.array([0.7, 1.3]), onp.array([1.1, 0.4])]
+    ys = [onp.array([2.0, 0.9]), onp.array([3.0, 1.2]), onp.array([4.0, 0.6])]
+    for which, bad_i, bad_kw in (("none", None, None), ("first y", 0, None), ("second y", 1, None), ("last y", 2, None),
+                                 ("keyword flag=0", None, 0), ("keyword flag=2", None, 2)):
+        out["oracle_n"] += 1
+        out["oracle_keys"].append("combo_check/" + which)
+        dist("combo_check")
+        try:
+            onp.random.seed(cfg["seed"] % (2 ** 31))
+            combo_check(planted_combo(bad_i, bad_kw), (0, 1), modes=["rev", "fwd"], order=1)(xs_, ys, flag=[0, 1, 2])
+            rejected = False
+        except AssertionError:
+            rejected = True
+        except Exception as ex:
+            out["oracle_bad"].append({"oracle": "combo_check", "kind": which, "what": "unexpected %r" % (ex,), "site": {"oracle": "combo_check"}})
+            continue
+        if rejected != (which != "none"):
+            out["oracle_bad"].append({"oracle": "combo_check", "kind": which,
+                                      "what": ("a rule wrong only for the combination with %s was accepted" % which) if which != "none"
+                                      else "a correct rule was rejected", "site": {"oracle": "combo_check"}})
     # correct built-in primitives at regular well-scaled points, containers included
     builtin = [("tanh", lambda x: anp.tanh(x), lambda: onp.array([0.3, -0.8, 1.1])),
                ("dot-sum", lambda x: anp.sum(anp.dot(x, x.T)), lambda: onp.array([[0.5, 1.2], [-0.7, 0.9]])),
